@@ -10,7 +10,9 @@ SPEC = {
             "dictated exactly (atoms on dyadic z coordinates); per grid definition (lower x width x n alphabets, 1-3 dimensions, "
             "non-periodic / periodic variables with 4 wrapAround centres and grids covering the wrapping interval, part of it, a "
             "shifted period, a straddling interval or two periods; grid taken from the variables or from a `grid`/`histogramGrid` "
-            "block) EVERY value lower+(i+delta)*width, i=-2..n+1, delta in {0,2^-40,1/2,1-2^-40} (+- whole periods; reduced edge "
+            "block; in 2-D/3-D the block changes EVERY non-empty subset of the variables' own lowerBoundary/upperBoundary/width - "
+            "all three, the upper boundary only, the width only or the lower boundary only - and repeats the other variables' own "
+            "parameters) EVERY value lower+(i+delta)*width, i=-2..n+1, delta in {0,2^-40,1/2,1-2^-40} (+- whole periods; reduced edge "
             "set per dimension in 2-D/3-D products) is presented, every 5th call preceded by the first call of a continued run; "
             "plus ALL words of length <= L over a 5-6 letter value alphabet x every run segmentation x stepZeroData on fresh "
             "modules; plus decimal (non-dyadic) grids and a real dihedral with interior values only; plus the documented "
@@ -20,8 +22,9 @@ SPEC = {
             "part c15_io: every grid shape with 1-3 points per dimension in 1-3 dimensions x per-dimension kind (non-periodic "
             "variable, periodic variable on part of / on the whole period) x two parameter alphabets (few digits, many digits) x "
             "{count, scalar, gradient, gradient+samples} x 10 write/read paths (multicolumn->file constructor, ->read_multicol with "
-            "and without add, restart text/binary into a same-shaped or differently-shaped fresh grid, raw text in the two float "
-            "formats Colvars uses, raw binary) x 3 data patterns with a distinct value per cell; a case is distinct by that tuple and "
+            "and without add, restart text/binary into a same-shaped fresh grid or into a fresh grid that differs from the "
+            "source in EVERY non-empty subset of dimensions (boundaries+width+size, upper boundary only, or width only), raw text "
+            "in the two float formats Colvars uses, raw binary) x 3 data patterns with a distinct value per cell; a case is distinct by that tuple and "
             "non-trivial when the re-read grid was compared attribute by attribute with the harness's own record of the source",
     "assumptions": ["finite alphabets of exactly representable reals; nothing is claimed for values outside them (in particular for "
                     "values within one rounding error of a bin edge of a grid with non-dyadic parameters)",
